@@ -1,7 +1,7 @@
 from itertools import chain
 from typing import Any, Iterable, Union, Sequence, overload, Dict, Literal, Tuple
 
-from coba.pipes import Pipes, IterableSource, LabelRows, Reservoir, UrlSource, CsvReader
+from coba.pipes import Pipes, IterableSource, ListSource, LabelRows, Reservoir, UrlSource, CsvReader
 from coba.pipes import CsvReader, ArffReader, LibsvmReader, ManikReader
 
 from coba.utilities  import peek_first
@@ -176,7 +176,7 @@ class SupervisedSimulation(Environment):
             Y          = args[1]
             label_type = args[2] if len(args) > 2 else kwargs.get("label_type", None)
             params     = {"source": "[X,Y]"}
-            source     = IterableSource(zip(X,Y))
+            source     = ListSource(list(zip(X,Y)))
 
         self._label_type = label_type
         self._source     = source
